@@ -9,7 +9,7 @@
 (* (3) Lang(node, ...): the strings derivable from a rule body given as a tree (C13).             *)
 EXTENDS Naturals, Sequences, FiniteSets, TLC, Json
 
-CONSTANTS NamePool, ChainPool, PairNames
+CONSTANTS NamePool, ChainPool, PairNames, PairChains     \* PairChains: chains given to the second field of a two-field schema
 VARIABLE gs        \* [fields |-> Seq([name, chain]), route, envelope]
 
 Routes == {"FIELDS", "CONTRACT"}
@@ -18,8 +18,9 @@ One == /\ gs.route = "-"
        /\ \E n \in NamePool, c \in ChainPool, r \in Routes, e \in BOOLEAN :
             gs' = [fields |-> <<[name |-> n, chain |-> c]>>, route |-> r, envelope |-> e]
 Two == /\ gs.route = "-"
-       /\ \E a \in PairNames, b \in PairNames, r \in Routes :
-            a # b /\ gs' = [fields |-> <<[name |-> a, chain |-> "REQ"], [name |-> b, chain |-> "OPT"]>>, route |-> r, envelope |-> TRUE]
+       /\ \E a \in PairNames, b \in PairNames, r \in Routes, c \in PairChains \cup {"OPT"}, d \in {"REQ"} \cup PairChains :
+            a # b /\ (c = "OPT" \/ d = "REQ" \/ c # d)
+            /\ gs' = [fields |-> <<[name |-> a, chain |-> d], [name |-> b, chain |-> c]>>, route |-> r, envelope |-> TRUE]
 Next == One \/ Two
 EmitCase == IF gs.route # "-" THEN PrintT(ToJson(gs)) ELSE TRUE
 
